@@ -119,7 +119,7 @@ def do_detect(names, tier="quick"):
             for pid in meta.get("detect_with", [meta["property"]]):
                 t0 = time.time()
                 rc, out = sh([os.path.join(HOME, "check"), pid, "--tier", tier], cwd=HOME,
-                             env={"VERIF_REPO": wt, "VERIF_AUDIT": "1"})
+                             env={"VERIF_REPO": wt, "VERIF_AUDIT": "1", "VERIF_AUDIT_FAST": "1"})
                 lines = [l for l in out.splitlines() if l.startswith(("VIOLATION", "MACHINERY"))]
                 det[pid] = {"rc": rc, "first": lines[0][:300] if lines else "", "wall": round(time.time() - t0, 1)}
                 print("DETECT %s with %s: rc=%d %s" % (name, pid, rc, lines[0][:200] if lines else ""))
